@@ -595,6 +595,12 @@ impl<'a> G<'a> {
                 return;
             }
         }
+        if self.cfg.random && !in_func && self.rng.chance(1, 12) {
+            // the story re-seeds itself: from here on the seed differs from the one it was constructed with
+            let k = self.rng.range(1, 1000);
+            self.line(indent, &format!("~ SEED_RANDOM({k})"));
+            return;
+        }
         let r = self.rng.below(20);
         match r {
             0..=5 => self.text_line(indent),
@@ -1021,6 +1027,14 @@ pub fn render(rng: &mut Rng, cfg: &GenCfg) -> String {
         let target = g.rng.pick(&knot_names).clone();
         // without `loops` the program has no back edges at all (sites run at most once)
         let target = if g.rng.chance(1, 2) || !g.cfg.loops { "END".to_string() } else { target };
+        if g.rng.chance(1, 5) {
+            // the thread offers nothing but a fallback choice: while the main flow still has lines to print
+            // the story rests with an invisible choice pending and can_continue() true
+            g.line(0, &format!("* -> {target}"));
+            g.line(0, "-> DONE");
+            g.line(0, "");
+            continue;
+        }
         g.line(0, &format!("+ {m} thread choice"));
         g.line(1, &format!("{m} thread body"));
         g.line(1, &format!("-> {target}"));
